@@ -821,6 +821,7 @@ _lys_set_implemented(struct lys_module *mod, const char **features, struct lys_g
         } else if (!r) {
             /* mark the module as changed */
             mod->to_compile = 1;
+            ++mod->ctx->change_count;
         }
 
         return r;
